@@ -139,6 +139,15 @@ def _drop_submodule(s):
         _os.remove(s + '/sub/build.bfg')
 
 
+def _drop_finds_add_submodule(s):
+    # the build script stops searching for files and gains a new submodule (a new regeneration input)
+    _write(s + '/build.bfg', "project('p')\nsubmodule('sub')\nsubmodule('sub2')\ncommand('say', cmd=['echo', argv.subname])\n"
+                             "pkg_config('p', version='1.0')\n")
+    _write(s + '/sub2/build.bfg', "copy_file('u.txt')\n")
+    _write(s + '/sub2/u.txt', '')
+    _write(s + '/sub2/v.txt', '')
+
+
 EDITS = {
     'none': lambda s: None,
     'edit-build': lambda s: _append(s + '/build.bfg', "copy_file('extra.txt')\n"),
@@ -155,6 +164,8 @@ EDITS = {
     'add-empty-dir': lambda s: _os.makedirs(s + '/d2/empty', exist_ok=True),
     'drop-submodule': lambda s: _drop_submodule(s),
     'fill-empty-dir': lambda s: _write(s + '/d2/empty/w.dat', ''),
+    'drop-finds-add-submodule': lambda s: _drop_finds_add_submodule(s),
+    'edit-new-submodule': lambda s: _os.path.exists(s + '/sub2/build.bfg') and _append(s + '/sub2/build.bfg', "copy_file('v.txt')\n"),
 }
 BUILD_FILES = ('Makefile', '.bfg_find_deps', '.bfg_find_cache', 'compile_commands.json')
 
@@ -162,7 +173,7 @@ BUILD_FILES = ('Makefile', '.bfg_find_deps', '.bfg_find_cache', 'compile_command
 def _sort_dist_members(text):
     out = []
     for l in text.split('\n'):
-        if l.startswith('\t$(DOPPEL) -ipN -f '):
+        if l.startswith('\t$(DOPPEL) -ipN -f ') or l.startswith('  cmd = ${doppel} -ipN -f '):
             w = l.split(' ')
             k = w.index('-P') + 2
             l = ' '.join(w[:k] + sorted(w[k:-1]) + w[-1:])
@@ -178,7 +189,7 @@ class RegenHistory(Bounded):
     a second make regenerates nothing."""
     native_chunk = 1
     target = 'bfg9000/builtins/find.py::find_check_cache'
-    properties = ('C08',)
+    properties = ('C08', 'C10')
     reason = 'history over the file system, mtimes and an external make process: runtime contract only'
 
     def native_inputs(self, case, alphabet, maxlen, rng, extra=0):
@@ -187,7 +198,8 @@ class RegenHistory(Bounded):
             yield {'edits': [e]}
         pairs = [('add-match-d1', 'edit-sub'), ('edit-sub', 'add-match-d1'), ('rm-match', 'add-match-d1'),
                  ('add-dir', 'add-nomatch-d1'), ('rename-dir', 'edit-build'), ('touch-options', 'add-match-deep'),
-                 ('add-nomatch-d1', 'none'), ('edit-options', 'rm-match'), ('add-empty-dir', 'add-dir'), ('add-empty-dir', 'fill-empty-dir')]
+                 ('add-nomatch-d1', 'none'), ('edit-options', 'rm-match'), ('add-empty-dir', 'add-dir'), ('add-empty-dir', 'fill-empty-dir'),
+                 ('drop-finds-add-submodule', 'edit-new-submodule')]
         for a, b in pairs:
             yield {'edits': [a, b]}
         # the consequence of a watched-directory set that was not refreshed: only the last step is compared
@@ -276,6 +288,10 @@ class RegenHistory(Bounded):
                         # the watched directories are written in set-iteration order (varies with the hash seed
                         # even between two fresh configures: that is C13, not this property): compare as sets
                         got[n], fresh[n] = (' '.join(sorted(x.split())) for x in (got[n], fresh[n]))
+                    if n == '.bfg_find_deps' and fresh[n] is None and '.bfg_find_deps' not in (got['Makefile'] or ''):
+                        # a depfile left over from an earlier configuration that no build file reads any more is not
+                        # a build file (a fresh configure into an empty directory simply has none)
+                        continue
                     if got[n] != fresh[n]:
                         return self.fail(case, raw, 'regenerated_build_files_equal_a_fresh_configure', step=k, edit=e,
                                          file=n, regenerated_ran=n1 - n0, have=(got[n] or '')[-300:],
